@@ -1143,3 +1143,39 @@ def flag_gate(ctx, f, test):
     if len(mins) == 1 and list(mins)[0][1]:
         return Gate(f, test, list(mins)[0][0], 'matches')
     return None
+
+
+def inline_locals(f, e, depth=3):
+    """A copy of e in which every local that is assigned exactly once in f
+    (and is not a parameter or a comprehension / loop variable) is replaced
+    by what it was assigned, repeatedly up to ``depth``: the expression as
+    it reads without its intermediate names."""
+    from psa import pathval
+    bound = set(f.params)
+    for n in own_nodes(f.node):
+        if isinstance(n, (ast.For, ast.comprehension)):
+            for x in ast.walk(n.target):
+                if isinstance(x, ast.Name):
+                    bound.add(x.id)
+    counts = {}
+    vals = {}
+    for n in own_nodes(f.node):
+        if isinstance(n, ast.Assign):
+            for t in n.targets:
+                for x in ast.walk(t):
+                    if isinstance(x, ast.Name):
+                        counts[x.id] = counts.get(x.id, 0) + 1
+                if isinstance(t, ast.Name):
+                    vals[t.id] = n.value
+        elif isinstance(n, (ast.AugAssign, ast.AnnAssign)) and isinstance(
+                n.target, ast.Name):
+            counts[n.target.id] = counts.get(n.target.id, 0) + 2
+    env = {k: v for k, v in vals.items()
+           if counts.get(k) == 1 and k not in bound}
+    out = e
+    for _i in range(depth):
+        new = pathval.subst(out, env)
+        if ast.dump(new) == ast.dump(out):
+            break
+        out = new
+    return out
